@@ -1856,3 +1856,55 @@ Proof.
         -- injection E as E1 _. congruence.
         -- injection E as E1 _. congruence.
 Qed.
+
+(* ------------------------------------------------------------------------------------------- *)
+(* a re-opened domain and a repeated key, through the grammar theorems: the lines of both blocks in order, the last value *)
+Definition ex2_doc : list piece :=
+  [POpen (raw "a"%hex) []; PText (map ARaw (raw "k=1"%hex) ++ [ARaw 10]); PClose (raw "a"%hex) [];
+   POpen (raw "b"%hex) []; PClose (raw "b"%hex) [];
+   POpen (raw "a"%hex) [32]; PText (map ARaw (raw "k = 2"%hex) ++ [ARaw 10] ++ map ARaw (raw "k=3"%hex)); PClose (raw "a"%hex) []].
+Definition ex2_dec (l : list atom) : list gline * bool :=
+  if (length l =? 4)%nat then ([GKV [] (raw "k"%hex) [] [] (raw "1"%hex) []], true)
+  else ([GKV [] (raw "k"%hex) [32] [32] (raw "2"%hex) []; GKV [] (raw "k"%hex) [] [] (raw "3"%hex) []], false).
+
+Example ex2_doc_ok : doc_ok ex2_doc.
+Proof. unfold doc_ok. split; [|split]; solve_ok. Qed.
+Example ex2_short : short_lines (tokens_of ex2_doc).
+Proof.
+  intros t seg Hin Hseg. vm_compute in Hin.
+  repeat (destruct Hin as [Hin|Hin]; [first [discriminate Hin | injection Hin as <-; vm_compute in Hseg;
+    repeat (destruct Hseg as [<-|Hseg]; [vm_compute; reflexivity|]); contradiction]|]).
+  contradiction.
+Qed.
+Example ex2_no_clobber : no_clobber (piece_events ex2_doc).
+Proof.
+  intros K l Hin Hk HL. vm_compute in Hin.
+  repeat (destruct Hin as [Hin|Hin]; [first [discriminate Hin | injection Hin as <- <-;
+    destruct HL as [HL|HL]; [vm_compute in HL; discriminate HL|vm_compute in HL; repeat (destruct HL as [HL|HL]; [discriminate HL|]); contradiction]]|]).
+  contradiction.
+Qed.
+Example ex2_grammar_text : grammar_text ex2_dec ex2_doc.
+Proof.
+  intros l Hl. vm_compute in Hl.
+  repeat (destruct Hl as [Hl|Hl]; [first [discriminate Hl | injection Hl as <-]|]); try contradiction.
+  - split; [|reflexivity]. evalfst. apply Forall_cons; [|apply Forall_nil].
+    repeat (split; [bl|]). split; [ckey 107 (@nil N) (@nil N) 107 | cval 49 (@nil N) (@nil N) 49].
+  - split; [|reflexivity]. evalfst. apply Forall_cons; [|apply Forall_cons; [|apply Forall_nil]].
+    + repeat (split; [bl|]). split; [ckey 107 (@nil N) (@nil N) 107 | cval 50 (@nil N) (@nil N) 50].
+    + repeat (split; [bl|]). split; [ckey 107 (@nil N) (@nil N) 107 | cval 51 (@nil N) (@nil N) 51].
+Qed.
+
+Example ex2_reopened_domain : exists t, parse (render ex2_doc) = Ok t /\
+  get_int_def t (path_string [raw "a"%hex] (Some (raw "k"%hex))) 0%Z = Ok 3%Z /\
+  get_domain_line t (path_string [raw "a"%hex] None) = Ok [raw "k=1"%hex; raw "k = 2"%hex; raw "k=3"%hex].
+Proof.
+  destruct (grammar_value ex2_dec ex2_doc [raw "a"%hex] (raw "k"%hex) ex2_doc_ok ex2_short ex2_no_clobber ex2_grammar_text) as (t & Hp & _ & H2 & _).
+  - repeat constructor; try discriminate; notin.
+  - repeat split; try notin; [exists 107, []|exists [], 107]; split; try reflexivity; discriminate.
+  - vm_compute. discriminate.
+  - exists t. split; [exact Hp|]. split; [rewrite H2; vm_compute; reflexivity|].
+    destruct (grammar_lines ex2_dec ex2_doc [raw "a"%hex] ex2_doc_ok ex2_short ex2_no_clobber ex2_grammar_text) as (t' & Hp' & HL).
+    + repeat constructor; try discriminate; notin.
+    + right. vm_compute. left. reflexivity.
+    + rewrite Hp in Hp'. injection Hp' as <-. rewrite HL. vm_compute. reflexivity.
+Qed.
